@@ -76,7 +76,7 @@ def run_tlc(
     cfgfile = workdir / f"{module}.cfg"
     cfgfile.write_text(cfg)
     meta = workdir / f"meta_{module}_{int(time.time() * 1e6) % 10**9}"
-    jopts = [f"-Xmx{heap}", "-XX:+UseParallelGC"]
+    jopts = [f"-Xmx{heap}", "-XX:+UseParallelGC", "-Xss64m"]
     if dfs_queue:
         jopts.append("-Dtlc2.tool.queue.IStateQueue=StateDeque")
     cmd = ["java", *jopts, "-cp", JAR, "tlc2.TLC", "-workers", str(workers), "-metadir", str(meta),
